@@ -34,6 +34,9 @@ def main():
     r = sh(f"python3 {demo}" if False else f"cd {WT} && /venv/bin/python {demo}", env=env)
     rec["demo_without_change_exit"] = r.returncode
     r = sh(f"git -C {WT} apply {patch}")
+    if r.returncode != 0:      # the tree has moved on since the change was written (later fix: commits): merge it
+        r = sh(f"git -C {WT} apply --3way {patch}")
+        rec["applied_with_3way"] = True
     if r.returncode != 0:
         rec["error"] = "patch does not apply: " + r.stderr[-300:]
         print(json.dumps(rec, indent=1)); return 2
